@@ -6,6 +6,9 @@
 //!                        "replace": {name: type_path}} }]
 //! output: <out_dir>/<id>.rs (the module body typify generates) and
 //!         <out_dir>/index.json: per case {ok, error?, root_type, structs: {Type: [{field, json, ty}]}, builders: [..]}
+#[path = "../../corpus/origin_types.rs"]
+mod origin_types;
+
 use std::collections::BTreeMap;
 use std::panic::{catch_unwind, AssertUnwindSafe};
 
@@ -153,5 +156,46 @@ fn main() {
         };
         index.insert(case.id.clone(), entry);
     }
+    // C04: origin types -> schemars schema -> typify, through both ingestion routes
+    let mut origin = serde_json::Map::new();
+    for (name, root) in origin_types::schemas() {
+        let schema_json = serde_json::to_value(&root).unwrap();
+        let mut entry = serde_json::Map::new();
+        entry.insert("schema".into(), schema_json);
+        for route in ["root", "defs"] {
+            let r = catch_unwind(AssertUnwindSafe(|| run_origin(name, &root, route)));
+            let id = format!("o_{}_{}", name.to_lowercase(), route);
+            let v = match r {
+                Ok(Ok((text, ty))) => {
+                    std::fs::write(out.join(format!("{id}.rs")), text).unwrap();
+                    json!({"ok": true, "module": id, "type": ty})
+                }
+                Ok(Err(e)) => json!({"ok": false, "error": e}),
+                Err(_) => json!({"ok": false, "error": "typify panicked"}),
+            };
+            entry.insert(route.into(), v);
+        }
+        origin.insert(name.to_string(), serde_json::Value::Object(entry));
+    }
+    index.insert("__origin".into(), serde_json::Value::Object(origin));
     std::fs::write(out.join("index.json"), serde_json::to_string_pretty(&index).unwrap()).unwrap();
+}
+
+/// One origin type through one ingestion route; returns (module text, type name).
+fn run_origin(name: &str, root: &schemars::schema::RootSchema, route: &str) -> Result<(String, String), String> {
+    let mut ts = TypeSpace::new(&TypeSpaceSettings::default());
+    let type_name = if route == "root" {
+        let id = ts.add_root_schema(root.clone()).map_err(|e| format!("add_root_schema: {e}"))?.ok_or("root schema without a type")?;
+        ts.get_type(&id).map_err(|e| e.to_string())?.name()
+    } else {
+        // the definitions map, with the root type itself as one more definition
+        let mut defs: Vec<(String, schemars::schema::Schema)> = root.definitions.iter().map(|(k, v)| (k.clone(), v.clone())).collect();
+        defs.push((name.to_string(), schemars::schema::Schema::Object(root.schema.clone())));
+        ts.add_ref_types(defs).map_err(|e| format!("add_ref_types: {e}"))?;
+        let r: schemars::schema::Schema = serde_json::from_value(json!({"$ref": format!("#/definitions/{name}")})).unwrap();
+        let id = ts.add_type(&r).map_err(|e| format!("add_type: {e}"))?;
+        ts.get_type(&id).map_err(|e| e.to_string())?.name()
+    };
+    let file = syn::parse2::<syn::File>(ts.to_stream()).map_err(|e| format!("output does not parse as a file: {e}"))?;
+    Ok((prettyplease::unparse(&file), type_name))
 }
